@@ -211,7 +211,9 @@ func (lex *Lexer) ret(n int) {
 	if lex.top < 0 {
 		lex.top = 0
 	}
-	lex.cs = lex.stack[lex.top]
+	if lex.top < len(lex.stack) {
+		lex.cs = lex.stack[lex.top]
+	}
 	lex.p++
 }
 
